@@ -604,8 +604,14 @@ Litter ==
   /\ UNCHANGED <<dvars, lvars, pc, plan, todo, refImg, salts, mx, ckpted, mvars>>
   /\ H("Litter", [x |-> 0])
 
-Next == \/ Crash \/ Retain \/ Litter \/ DropDB \/ BeginJ \/ JRmWal \/ JCreate \/ JSync \/ JPage \/ JRbTrunc \/ JRbPage \/ JFinal \/ JTrunc
+Step == \/ Crash \/ Retain \/ Litter \/ DropDB \/ BeginJ \/ JRmWal \/ JCreate \/ JSync \/ JPage \/ JRbTrunc \/ JRbPage \/ JFinal \/ JTrunc
         \/ BeginW \/ WHdr \/ WFrame \/ WEnd \/ Ckpt \/ LCkpt
+\* Emit = "edge": one behaviour per explored TRANSITION into an idle state (the path on which TLC first
+\* reached the source state, plus this step), not one per distinct idle state: two ways of reaching the same
+\* state (e.g. a LiteFS checkpoint with and without uncommitted frames in the log) are both replayed.
+Next == /\ Step
+        /\ (Emit = "edge" /\ pc' = "idle" /\ hist' # <<>>)
+             => PrintT("TRACE " \o ToJson([h |-> hist', img |-> <<>>, ref |-> refImg']))
 Spec == Init /\ [][Next]_vars
 
 (* ====================== properties ====================== *)
@@ -625,7 +631,7 @@ C05_ModeAfterRestart == (crashed /\ pc = "idle" /\ fault = "none" /\ dbf # <<>>)
 CacheSound == \A b \in 1..Len(blk) : blk[b].ok => blk[b].agg = BlockAgg(pchk, b - 1)
 
 \* emission of replay scripts (one per distinct idle state / per finished behaviour)
-EmitInv == (/\ Emit # "none" /\ pc = "idle" /\ hist # <<>>
+EmitInv == (/\ Emit \notin {"none", "edge"} /\ pc = "idle" /\ hist # <<>>
             /\ (Emit = "end" => (ops = MaxOps \/ fault # "none")))
            => PrintT("TRACE " \o ToJson([h |-> hist, img |-> Logical(pageN), ref |-> refImg]))
 ====
